@@ -50,4 +50,14 @@ theorem roundtrip_any (h : Header) (gs L : List Group) (p : Bytes) (hwf : gs.all
 theorem opFirst_id_of_wf (gs : List Group) (hwf : wfMsg gs = true) : opFirst gs = gs :=
   opFirst_of_wfMsg gs hwf
 
+/-- `opFirst` loses and invents nothing: when the message has an operation group it only reorders the groups … -/
+theorem opFirst_only_reorders (gs : List Group) (h : gs.any (fun g => g.tag == .OperationAttributes) = true) :
+    (opFirst gs).Perm gs :=
+  opFirst_perm gs h
+
+/-- … and when it has none, the encoder's empty operation group is put in front of the unchanged list -/
+theorem opFirst_without_operation_group (gs : List Group) (h : gs.any (fun g => g.tag == .OperationAttributes) = false) :
+    opFirst gs = ⟨.OperationAttributes, []⟩ :: gs :=
+  opFirst_none gs h
+
 end Ipp.Props.C01
